@@ -655,6 +655,20 @@ fn c03(ix: &Ix, f: &mut Findings) {
         }
         for (a, x) in ix.actors.iter().enumerate() {
             if !x.start_enter.is_empty() || ix.sim() {
+                // strong handles the reference model still knows at the end (e.g. two actors holding each other) legitimately keep an actor alive
+                let last_model = ix
+                    .log
+                    .iter()
+                    .rev()
+                    .find_map(|e| match &e.k {
+                        K::RefOp { actor, model, .. } if *actor == a => Some(*model),
+                        _ => None,
+                    })
+                    .unwrap_or(0);
+                let cause = !x.kills.is_empty() || x.stops.iter().any(|k| matches!(&ix.ops[k].end, Some((_, Res::Ok(_), _)))) || !x.started_ok() || x.run_err().is_some() || x.first_hook_panic().is_some();
+                if last_model > 0 && !cause {
+                    continue;
+                }
                 f.o("C07.ends");
                 if x.ended.is_none() {
                     f.v("C07.ends", Some(a), format!("actor {a} has not ended at the end of the history although every reference was dropped / it was stopped or killed"));
